@@ -18,5 +18,7 @@ func c06HelperOne(t *testing.T, run *h.Run, c c06Case) {}
 func c09HelperAvailable() bool                         { return false }
 func c09HelperOne(t *testing.T, run *h.Run, c c09Case) {}
 
+func c09DeleteHelper(t *testing.T, run *h.Run, seqs [][]int) bool { return false }
+
 func c17HelperAvailable() bool                      { return false }
 func c17Helper(t *testing.T, run *h.Run, c c17Case) {}
